@@ -49,15 +49,26 @@ Proof. exact @collect_any_order. Qed.
 Print Assumptions C20_collect_any_completion_order.
 
 (* clause "evaluating a function over the sampling points in parallel returns, for every number of worker
-   processes, the same array in the same order as evaluating it serially": every n_jobs >= 1, every function,
-   every pool that delivers each result exactly once in any order *)
+   processes, the same array in the same order as evaluating it serially", for compute_phase_diagram as it is NOW
+   (integer chunk_size = max(1, ceil(n / (4 n_jobs))), after fix 14cf9ed): every n_jobs >= 1, every function, every
+   list of points, every pool that delivers each result exactly once in any order: the call does not raise
+   (Some ...) and returns the serial result *)
 Theorem C20_parallel_equals_serial : forall (A B : Type) (f : A -> B)
     (pool : (list A -> list B) -> list (nat * list A) -> list (nat * list B)),
   (forall g tasks, Permutation (pool g tasks) (map (fun t => (fst t, g (snd t))) tasks)) ->
-  forall (n_jobs : positive) (xs : list A), parmap f pool n_jobs xs = serial f xs.
+  forall (n_jobs : positive) (xs : list A), parmap f pool n_jobs xs = Some (serial f xs).
 Proof. exact @parallel_equals_serial. Qed.
 Print Assumptions C20_parallel_equals_serial.
 
+(* the same for mpire's default chunking (n_splits = 4 n_jobs) with the carry computed exactly ... *)
+Theorem C20_parallel_equals_serial_default_chunking : forall (A B : Type) (f : A -> B)
+    (pool : (list A -> list B) -> list (nat * list A) -> list (nat * list B)),
+  (forall g tasks, Permutation (pool g tasks) (map (fun t => (fst t, g (snd t))) tasks)) ->
+  forall (n_jobs : positive) (xs : list A), parmap_default f pool n_jobs xs = serial f xs.
+Proof. exact @parallel_equals_serial_default. Qed.
+Print Assumptions C20_parallel_equals_serial_default_chunking.
+
+(* ... and for whatever the float carry produces *)
 Theorem C20_parallel_equals_serial_any_carry : forall (A B : Type) (f : A -> B)
     (pool : (list A -> list B) -> list (nat * list A) -> list (nat * list B)),
   (forall g tasks, Permutation (pool g tasks) (map (fun t => (fst t, g (snd t))) tasks)) ->
@@ -82,15 +93,16 @@ Theorem C20_parallel_raises_iff : forall (A B : Type) (f : A -> B)
 Proof. exact @parmap_checked_raises_iff. Qed.
 Print Assumptions C20_parallel_raises_iff.
 
-(* FINDING (replayed on /repo by harness/c20.py): "for every number of worker processes" is false of the model once
-   the float values are put in.  For the 49 sampling points of the plain scheme with samples = 7 and n_jobs = 11
+(* FINDING, fixed in /repo by 14cf9ed (the harness replays it when that fix is reverted): with mpire's DEFAULT
+   chunking — the call koala made before the fix — "for every number of worker processes" is false once the float
+   values are put in.  For the 49 sampling points of the plain scheme with samples = 7 and n_jobs = 11
    IEEE double arithmetic gives chunk_size = 49/44, the ceil sequence below (44 chunks) and
    get_n_chunks = ceil(49 / (49/44)) = ceil(44.00000000000001) = 45: the call raises ValueError instead of
    returning.  (That these are the float values is outside Coq; the harness recomputes them with the same float
    expressions and compares with mpire on every run.) *)
 Definition ceils_49_44 : list Z :=
   [2;1;1;1;1;1;1;1;2;1;1;1;1;1;1;1;1;2;1;1;1;1;1;1;1;1;2;1;1;1;1;1;1;1;1;2;1;1;1;1;1;1;1;1]%Z.
-Theorem C20_parallel_never_raises_refuted :
+Theorem C20_default_chunking_never_raises_refuted :
   exists (ceil_at : nat -> Z) (predicted : nat),
     ceil_at = (fun i => nth i ceils_49_44 1%Z) /\ predicted = 45%nat /\
     forall (B : Type) (f : nat -> B) pool, parmap_checked f pool ceil_at predicted (seq 0 49) = None.
@@ -98,7 +110,7 @@ Proof.
   exists (fun i => nth i ceils_49_44 1%Z), 45%nat. split; [reflexivity|]. split; [reflexivity|].
   intros B f pool. apply parmap_checked_raises_iff. vm_compute. discriminate.
 Qed.
-Print Assumptions C20_parallel_never_raises_refuted.
+Print Assumptions C20_default_chunking_never_raises_refuted.
 
 (* the final .T for vector-valued functions: data[j][i] is component j of the result of point i *)
 Theorem C20_transpose_entry : forall (C : Type) (d : nat) (rows : list (list C)) (i j : nat) (r : list C) (c : C),
@@ -120,9 +132,11 @@ Proof. vm_compute. repeat split; reflexivity. Qed.
 Example C20_parmap_nonvacuous :
   let xs := [10; 11; 12; 13; 14; 15; 16]%nat in
   let pool := fun (g : list nat -> list nat) tasks => schedule_pool g (rev (seq 0 (length tasks))) tasks in
+  koala_chunk_size 7 1 = 2%nat /\
   chunk_tasks xs 4 = [[10; 11]; [12; 13]; [14; 15]; [16]]%nat /\
   pool (computation S) (tag (chunk_tasks xs 4)) = [(3, [17]); (2, [15; 16]); (1, [13; 14]); (0, [11; 12])]%nat /\
-  parmap S pool 1 xs = map S xs.
+  parmap_default S pool 1 xs = map S xs /\
+  parmap S pool 1 xs = Some (map S xs).
 Proof. vm_compute. repeat split; reflexivity. Qed.
 
 Example C20_reversed_pool_honours_contract : forall (g : list nat -> list nat) tasks,
